@@ -608,7 +608,7 @@ func runC03Interleaved(c run.Ctx) *core.CaseResult {
 			useIdx, gcHook, flHook, order, nth = false, "mh.gc.freelist.before-mark", []string{"store.commit.after-primary", "index.flush.before-write"}[r.IntN(2)], 0, 1+r.IntN(3)
 		}
 	}
-	if (c.Index/4)%8 == 5 {
+	if (c.Index/4)%8 == 5 && (c.Index/4)%3 != 0 { // (the pinned index-GC x flush pair keeps all of its cases)
 		// flush x flush: a second Flush is issued while the first is parked inside (or between) its stages.
 		// If the second returns nil while the first is still parked, everything acknowledged before it
 		// must be durable in the image taken at that very moment.
